@@ -442,3 +442,9 @@ func boolTestsOf(fn *ssa.Function, v ssa.Value) []boolTest {
 	}
 	return out
 }
+
+// canReachEdge: can target be reached once the branch ifi has gone to its
+// successor number succ?
+func canReachEdge(ifi *ssa.If, succ int, target ssa.Instruction) bool {
+	return nil != reachQ{From: edgeLoc(ifi.Block(), succ), Target: func(i ssa.Instruction) bool { return i == target }}.run()
+}
